@@ -390,6 +390,82 @@ Example C02_image_example_replay :
   img_read im' (1024 + 3) 3 = [3; 240; 255].
 Proof. exact ex_replay_decodes. Qed.
 
+
+(* ---------------------------------------------------------------- SEVERAL OPEN FILES on one device image
+   (Model/VolSession2.v, Proofs/VolSession2Proofs.v): the image-level form of C02_interleaved_refines.
+   [MVolInv g im fi hs gs]: every byte < 256, the world read off the image is consistent, every handle [hs_i] satisfies the
+   C02 invariant with ghost (size, chain) [gs_i] and no bad-cluster mark in its chain, and the chains are PAIRWISE DISJOINT.
+   The abstraction [vviews] is, per file, what the INDEPENDENT DECODER reads: firstn sz (chain_bytes g im l), and the
+   handle's position. *)
+From FatVerif Require Import Model.Time Model.VolSession Model.VolSession2 Proofs.VolDirProofs Proofs.VolSessionProofs
+  Proofs.VolSession2Proofs Proofs.VolDirFormat Proofs.VolSessionExamples Proofs.VolSession2Examples.
+
+(* one call on handle [i]: it refines the byte-array machine on the decoder's content of file i; every other file keeps its
+   decoded content; the invariant (in particular pairwise disjointness) is kept with the ghost of handle i updated; the
+   image changes only in the FAT copies and in clusters of the new chain, each of which was in the old chain or free *)
+Theorem C02_image_interleaved_step : forall g, vgeom_ok g -> forall im fi hs gs i h gh op,
+  op_ok op -> MVolInv g im fi hs gs -> nth_error hs i = Some h -> nth_error gs i = Some gh ->
+  exists im' fi' h' r sz' l', vol_step g (im, fi, h) op = ((im', fi', h'), r) /\
+    MVolInv g im' fi' (list_set hs i h') (list_set gs i (sz', l')) /\
+    bf_step (firstn (N.to_nat (fst gh)) (chain_bytes g im (snd gh)), h_off h) op r
+      = Some (firstn (N.to_nat sz') (chain_bytes g im' l'), h_off h') /\
+    (forall j gj, j <> i -> nth_error gs j = Some gj ->
+       firstn (N.to_nat (fst gj)) (chain_bytes g im' (snd gj)) = firstn (N.to_nat (fst gj)) (chain_bytes g im (snd gj))) /\
+    (forall x, In x l' -> In x (snd gh) \/ fat_val g im x = FFree) /\
+    (forall a, ~ in_store_area g a -> (forall c, In c l' -> ~ in_cluster g c a) -> img_get im' a = img_get im a) /\
+    (forall x, 2 <= x < g_clusters g + 2 -> ~ In x (snd gh) -> ~ In x l' -> fat_val g im' x = fat_val g im x) /\
+    (forall x, In x (snd gh) -> ~ In x l' -> fat_val g im' x = FFree) /\
+    emono (h_entry h) (h_entry h') /\ VolInv g im' fi' h' sz' l'.
+Proof. exact mvol_step_refines. Qed.
+
+(* ANY interleaving of calls on the handles of one image = a run of the multi-file byte-array machine (Spec/ByteFile.v
+   bf_multi) over the decoder's contents; a call that addresses a missing handle is skipped on both sides *)
+Theorem C02_image_interleaved_refines : forall g, vgeom_ok g -> forall ops im fi hs gs,
+  Forall (fun io => op_ok (snd io)) ops -> MVolInv g im fi hs gs ->
+  exists im' fi' hs' rs gs', mvol_run g (im, fi, hs) ops = ((im', fi', hs'), rs) /\
+    MVolInv g im' fi' hs' gs' /\
+    bf_multi (vviews g im hs gs) ops rs = Some (vviews g im' hs' gs').
+Proof. exact mvol_run_refines. Qed.
+
+(* the same for whole SESSIONS on a FAT12/16 volume: handles bound to their directory entries in the fixed root, every call
+   under its own clock value (time stamps go to the handle's own editor), File::flush / drop of any handle at any point
+   (the entry write-back changes no file content).  [RunInv g im0 es0 st gs es ls] = the session invariant [Sess2Inv]
+   (MVolInv for the handles; every handle bound to ITS entry of the root scan [es]; a clean handle's entry on the device
+   holds its first cluster and size), the frame [Frame2] relative to the image [im0] the session started from, and the
+   entries that belong to no handle are the entries [es0] of the scan of [im0].  Kept by every run; names, short slots and
+   the non-handle entries never change *)
+Theorem C02_image_interleaved_session : forall g, fixed_root_geom g -> forall acc im0 es0 ops st gs es ls,
+  Forall s2op_ok ops -> RunInv g im0 es0 st gs es ls ->
+  exists st' rs gs' es', s2_run g acc st ops = (st', rs) /\ RunInv g im0 es0 st' gs' es' ls /\
+    bf_multi (s2_views g st gs) (file_ops ops) rs = Some (s2_views g st' gs') /\
+    gs_rel gs gs' /\ map hslot (s2_hs st') = map hslot (s2_hs st) /\
+    map e_sfn es' = map e_sfn es /\ map e_lfn es' = map e_lfn es.
+Proof. exact s2_run_inv. Qed.
+
+(* non-vacuity: two new handles on the 64-sector FAT12 image written alternately - clusters 2 -> 4 and 3 -> 5 *)
+Example C02_image_interleaved_example_hyps :
+  vgeom_ok ex_g /\ MVolInv ex_g ex_im ex_fi [empty_file; empty_file] [(0, []); (0, [])] /\
+  Forall (fun io => op_ok (snd io)) ex2_mops.
+Proof. split; [exact ex_geom_ok|]. split; [exact ex2_mvol_inv|exact ex2_mops_ok]. Qed.
+
+(* ... and the session invariant [RunInv]: it holds right after mount (Props/C04.v C04_session2_start) and is kept by every
+   create_file (C04_session2_create_keeps_inv); here the state after the two creates on the 64-sector image of Props/C06.v *)
+Example C02_image_interleaved_session_example_hyps :
+  let g := parse_geom ex_vol_im in
+  exists st1 gs es ls,
+    s2_creates ex_U ex_O {| s2_im := ex_vol_im; s2_fi := ex_sfi; s2_hs := [] |} ex2_reqs = Some st1 /\
+    RunInv g ex_vol_im [] st1 gs es ls /\ length gs = 2%nat /\ length (s2_hs st1) = 2%nat.
+Proof. exact ex2_run_inv. Qed.
+
+Example C02_image_interleaved_example :
+  let '((im', fi', hs'), rs) := mvol_run ex_g (ex_im, ex_fi, [empty_file; empty_file]) ex2_mops in
+  rs = [RCount 512; RCount 512; RCount 3; RCount 2; RPos 510; RBytes [7; 7]] /\
+  map h_first hs' = [Some 2; Some 3] /\
+  chain_from ex_g im' 2 (Abs.chain_fuel ex_g) = Some [2; 4] /\ chain_from ex_g im' 3 (Abs.chain_fuel ex_g) = Some [3; 5] /\
+  vviews ex_g im' hs' [(515, [2; 4]); (514, [3; 5])] = [(ex2_a, 512); (ex2_b, 514)] /\
+  bf_multi [([], 0); ([], 0)] ex2_mops rs = Some [(ex2_a, 512); (ex2_b, 514)].
+Proof. exact ex2_mvol_run. Qed.
+
 Print Assumptions C02_image_write_frame.
 Print Assumptions C02_read_spec.
 Print Assumptions C02_seek_spec.
@@ -409,3 +485,6 @@ Print Assumptions C02_image_data_offset_is_library.
 Print Assumptions C02_image_run_from_empty.
 Print Assumptions C02_image_replay_step.
 Print Assumptions C02_image_embedded_state.
+Print Assumptions C02_image_interleaved_step.
+Print Assumptions C02_image_interleaved_refines.
+Print Assumptions C02_image_interleaved_session.
